@@ -173,14 +173,14 @@ def _r14g(rep):
     QRED = (LAT("p", "-"),)  # q-point / direction in reduced reciprocal coordinates
     RECLAT = (CART, LAT("p", "+"))  # inv(primitive.cell): reciprocal basis vectors in columns
     run_sig = {"pos": [QRED], "kw": {"q_direction": QRED, "perturbation": QRED}}
-    sigs = {"run": run_sig, "_compute_dynamical_matrix": {"pos": [QRED, QRED]}, "_get_dD": {"pos": [QRED]}, "_get_dynamical_matrix": {"pos": [QRED]}}
+    sigs = {"run": run_sig, "_compute_dynamical_matrix": {"pos": [QRED, QRED]}, "_get_dD": {"pos": [QRED]}, "_get_dynamical_matrix": {"pos": [QRED]}, "_delta_dynamical_matrix": {"pos": [QRED, QRED]}}
     rep.rule("R14g", "q-points and NAC/perturbation directions handed between the access paths are in reduced reciprocal coordinates everywhere (frame typing: reciprocal basis (Cart, L+) contracts with reduced vectors L-; a Cartesian vector is never passed where a reduced one is expected)", 8)
     scope = [
         ("phonopy/phonon/band_structure.py", "BandStructure._solve_dm_on_path", {}, {"path": (UNK,) + QRED}),
         ("phonopy/phonon/qpoints.py", "QpointsPhonon._get_dynamical_matrix", {"self._nac_q_direction": QRED}, {"q": QRED}),
         ("phonopy/phonon/qpoints.py", "QpointsPhonon._run", {"self._nac_q_direction": QRED, "self._qpoints": (UNK,) + QRED}, {}),
         ("phonopy/phonon/group_velocity.py", "GroupVelocity.run", {"self._reciprocal_lattice": RECLAT}, {"q_points": (UNK,) + QRED, "perturbation": QRED}),
-        ("phonopy/phonon/group_velocity.py", "GroupVelocity._get_dD_FD", {"self._reciprocal_lattice": RECLAT, "self._reciprocal_lattice_inv": (LAT("p", "-"), CART)}, {"q": QRED}),
+        ("phonopy/phonon/group_velocity.py", "GroupVelocity._get_dD_FD", {"self._reciprocal_lattice": RECLAT, "self._reciprocal_lattice_inv": (LAT("p", "-"), CART), "self._directions": (UNK, CART), "self._q_length": ()}, {"q": QRED}),
         ("phonopy/harmonic/dynamical_matrix.py", "DynamicalMatrixNAC.run", {"self._rec_lat": RECLAT}, {"q": QRED, "q_direction": QRED}),
         ("phonopy/harmonic/dynamical_matrix.py", "DynamicalMatrixGL._compute_dynamical_matrix", {"self._rec_lat": RECLAT}, {"q_red": QRED, "q_direction": QRED}),
         ("phonopy/harmonic/dynamical_matrix.py", "DynamicalMatrixWang._compute_dynamical_matrix", {"self._rec_lat": RECLAT}, {"q_red": QRED, "q_direction": QRED}),
